@@ -243,13 +243,14 @@ func (s *c01state) step(op int, kinds []int) {
 
 func VerifC01_history() {
 	// quick:    4 steps, <= 3 fields of kinds 0, 2, 3
-	// thorough: 5 steps, <= 3 fields of kinds 0, 2, 3   or   4 steps, <= 3 fields of kinds 0..4
+	// thorough: 5 steps, <= 3 fields of kinds 0, 2   or   4 steps, <= 3 fields of kinds 0, 1, 3, 4
+	// (5 steps x kinds 0, 2, 3 plus 4 steps x kinds 0..4 is > 10^5 paths: over the time budget)
 	steps, maxFields, kinds := 4, 3, []int{0, 2, 3}
 	if vfTier() > 0 {
 		if vfChoice("plan", 2) == 0 {
-			steps = 5
+			steps, kinds = 5, []int{0, 2}
 		} else {
-			kinds = []int{0, 1, 2, 3, 4}
+			kinds = []int{0, 1, 3, 4}
 		}
 	}
 	s := c01new()
